@@ -445,6 +445,11 @@ def install(ex):
 #                               builtins
 # ======================================================================
 
+@model(BaseException.add_note)
+def m_add_note(ex, args, kw):
+    return None
+
+
 @model(slice)
 def m_slice(ex, args, kw):
     if len(args) == 1:
